@@ -115,12 +115,23 @@ func runC31(c *Ctx) error {
 		}
 		reg := map[string]ent{}
 		nsteps := 3 + c.Intn(12)
+		lastAdd := [4]int{-1, 0, 0, 0}
 		for k := 0; k < nsteps; k++ {
-			t := types[c.Intn(2)]
+			ti := c.Intn(2)
 			M, m, p := c.Intn(2)+1, c.Intn(3), c.Intn(2)
+			r := c.Intn(10)
+			if lastAdd[0] >= 0 && c.Chance(1, 2) { // look up what was just added (the cache entry add() wrote)
+				ti, M, m, p = lastAdd[0], lastAdd[1], lastAdd[2], lastAdd[3]
+				r = 4 + c.Intn(4)
+			}
+			lastAdd[0] = -1
+			if r < 4 {
+				lastAdd = [4]int{ti, M, m, p}
+			}
+			t := types[ti]
 			v := util.MustNewVersion(fmt.Sprintf("v%d.%d.%d", M, m, p))
 			ht := hint.NewHint(hint.Type(t), v)
-			switch r := c.Intn(10); {
+			switch {
 			case r < 4:
 				val := 100*hi%1000 + k + 1
 				err := st.Add(ht, val)
